@@ -86,7 +86,8 @@ def sh4(ctx: Ctx, shapes: Shapes, only_keys=None):
         if fi.module != "_url" or fi.cls:
             continue
         r = analyze(model, fi)
-        if any(e.attr == "_cache" and cache_root(e.value)[0] == "dict" and e.value[0] == "mut" for e in r.by_kind("store_attr")):
+        if any(e.attr == "_cache" and cache_root(e.value)[0] == "dict" and (e.value[0] == "mut" or (e.value[0] == "dict" and e.value[1]))
+               for e in r.by_kind("store_attr")):
             eager_funcs.append((fi, r))
     if not eager_funcs:
         raise AnalysisError("SH4: no constructor pre-fills the cache (anchor vanished)")
@@ -106,6 +107,10 @@ def sh4(ctx: Ctx, shapes: Shapes, only_keys=None):
                 if t[2] == "setitem" and t[3][0][0] == "const":
                     entries.setdefault(t[3][0][1], t[3][1])
                 t = t[1]
+            if t is not None and t[0] == "dict":        # entries written in the display the cache starts from
+                for kk, vv in t[1]:
+                    if kk[0] == "const" and isinstance(kk[1], str) and kk[1] != "**":
+                        entries.setdefault(kk[1], vv)
             init = State(facts=dict(st.facts))
             for attr, v in view.items():
                 if attr != "_cache":
@@ -210,6 +215,10 @@ def _sh4c(ctx, model, shapes, fi, methods, fillers, results):
             if t[2] == "setitem" and t[3][0][0] == "const":
                 entries.setdefault(t[3][0][1], t[3][1])
             t = t[1]
+        if t is not None and t[0] == "dict":
+            for kk, vv in t[1]:
+                if kk[0] == "const" and isinstance(kk[1], str) and kk[1] != "**":
+                    entries.setdefault(kk[1], vv)
         slots = {attr: v for attr, v in view.items() if attr != "_cache"}
         sub = {("attr", S, kk): vv for kk, vv in entries.items()}
         for k, ev in entries.items():
